@@ -124,6 +124,9 @@ def ref_should_stop(k, rates, max_cycles, fitness_error, early):
 def m_c04(ex):
     res = ex.result
     if res is None:
+        if ex.exc is not None and ex.exc[0] == 'TimeoutError' and 'execution cut' in ex.exc[3]:
+            return [('C04', f"C04|{ex.scn['opt']}|does-not-terminate", f"{ex.exc[3]} in {ex.exc[1]} ({ex.exc[2]}) after "
+                     f"{ex.steps} cycles, max_cycles={ex.cfg_before.get('max_cycles') if ex.cfg_before else '?'}")]
         return []
     out, o = [], ex.scn['opt']
     if len(res.evolution) != ex.steps + 1:
